@@ -199,11 +199,16 @@ TYPE_SENSITIVE = {"append", "insert", "extend", "set_parent", "setitem", "clone_
 def universe_for(v, opcode, variant, mode="wf"):
     """
     variant 'S': 1 Document + 3 Sections; variant 'P': 1 Document + 2 Sections + 2 Properties.
-    quick tier   : names are free symbolic strings of length exactly 1 (all of Unicode)
-    thorough tier: length <= 1 (the empty name falls back to the id) or the id of an earlier object
+    quick tier   : names are free symbolic strings of length exactly 1 (all of Unicode); for rename a name may also be
+                   the id of an earlier object (clearing a name falls back to the id)
+    thorough tier: the empty name (falls back to the id) for rename, the constructors, set_parent and append; a foreign
+                   id as name also for set_parent, setitem and reorder.  (The full product - every name empty / free /
+                   a foreign id for every opcode - ran for more than an hour per property on 16 cores and was cut back.)
     """
-    full = (v.tier == "thorough")
-    kw = dict(name_len=1, id_names=full, name_minlen=0 if full else 1)
+    thorough = (v.tier == "thorough")
+    id_names = opcode == "rename" or (thorough and opcode in ("set_parent", "setitem", "reorder"))
+    empty_names = thorough and opcode in ("rename", "ctor_section", "ctor_property", "set_parent", "append")
+    kw = dict(name_len=1, id_names=id_names, name_minlen=0 if empty_names else 1)
     if opcode == "link":
         # path strings reach posixpath (C code in 3.12): names from a concrete pool
         kw = dict(name_pool=["a", "ab", "b"])
